@@ -109,6 +109,7 @@ const char* token_fault_name(int f)
     case TF_CHAN_ARITH: return "channel-arithmetic";
     case TF_BAD_TERNARY: return "bad-conditional";
     case TF_OVERFLOW_LITERAL: return "overflow-literal";
+    case TF_CHAN_OPERAND: return "channel-operand";
     }
     return "?";
 }
@@ -197,6 +198,17 @@ FaultResult apply_token_fault(const std::string& text, const std::vector<Token>&
             if (after_system)
                 r.guaranteed_error = true;
         }
+        break;
+    }
+    case TF_CHAN_OPERAND: {
+        if (t.cls != 'n' || chan.empty() || decl_like)
+            return r;
+        // not the bound of a range or the size of an array type, and not after ':' (probability fractions, selects)
+        if (ti > 0 && (tok(ti - 1) == "[" || tok(ti - 1) == "," || tok(ti - 1) == ":") && ti + 1 < toks.size() && (tok(ti + 1) == "]" || tok(ti + 1) == ","))
+            return r;
+        r.text = before(ti) + chan + after(ti);
+        r.applied = true;
+        r.guaranteed_error = false;  // (a channel is a legal operand in a few places, e.g. a channel array index is not)
         break;
     }
     case TF_OVERFLOW_LITERAL: {
